@@ -17,13 +17,14 @@ Proof. induction a; simpl; intros; auto. Qed.
 Lemma sltb_negb_leb : forall a b, String.ltb a b = negb (String.leb b a).
 Proof.
   intros a b. unfold String.ltb, String.leb. rewrite (String.compare_antisym a b).
-  destruct (String.compare a b); reflexivity.
+  destruct (String.compare b a); reflexivity.
 Qed.
 
 Lemma sltb_irrefl : forall a, String.ltb a a = false.
 Proof.
   intros a. unfold String.ltb.
-  assert (String.compare a a = Eq) as -> by (apply String.compare_eq_iff; reflexivity). reflexivity.
+  assert (String.compare a a = Eq) as ->; [|reflexivity].
+  induction a as [|c a IH]; simpl; auto. unfold Ascii.compare. now rewrite N.compare_refl.
 Qed.
 
 Lemma prefix_app : forall p r, String.prefix p (p ++ r)%string = true.
@@ -54,7 +55,7 @@ Lemma stake_sdrop : forall n s, (stake n s ++ sdrop n s)%string = s.
 Proof. induction n; destruct s; simpl; auto. now rewrite IHn. Qed.
 
 Lemma sdrop_length_le : forall n s, String.length (sdrop n s) <= String.length s.
-Proof. induction n; destruct s; simpl; auto. specialize (IHn s); lia. Qed.
+Proof. induction n; destruct s as [|c r]; simpl; auto; try (specialize (IHn r); lia). Qed.
 
 Lemma sdrop_length : forall n s, n <= String.length s -> String.length (sdrop n s) = String.length s - n.
 Proof. induction n; destruct s; simpl; intros; auto; try lia. apply IHn; lia. Qed.
@@ -74,34 +75,39 @@ Lemma strings_Index_Some : forall s sub m, strings_Index s sub = Some m ->
   s = (stake m s ++ sub ++ sdrop (m + String.length sub) s)%string /\
   (forall k, k < m -> String.prefix sub (sdrop k s) = false).
 Proof.
-  induction s as [|c s IH]; intros sub m; simpl.
-  - destruct sub; simpl; [|discriminate]. intros [= <-]. split; [reflexivity|intros; lia].
+  induction s as [|c s IH]; intros sub m; cbn [strings_Index].
+  - destruct sub; cbn [String.prefix]; [|discriminate]. intros [= <-]. split; [reflexivity|intros; lia].
   - destruct (String.prefix sub (String c s)) eqn:P.
     + intros [= <-]. split; [|intros; lia].
-      destruct (prefix_inv _ _ P) as (r & E). simpl. rewrite E at 1. now rewrite E, sdrop_app.
-    + destruct (strings_Index s sub) as [m'|] eqn:E; simpl; [|discriminate]. intros [= <-].
+      destruct (prefix_inv _ _ P) as (r & E). cbn [stake sdrop Nat.add String.append]. rewrite E at 1. now rewrite E, sdrop_app.
+    + destruct (strings_Index s sub) as [m'|] eqn:E; cbn [option_map]; [|discriminate]. intros [= <-].
       destruct (IH _ _ E) as (H1 & H2). split.
-      * simpl. now rewrite <- H1.
-      * intros [|k] Hk; simpl; [exact P|apply H2; lia].
+      * cbn [stake sdrop Nat.add String.append]. now rewrite <- H1.
+      * intros [|k] Hk; cbn [sdrop]; [exact P|apply H2; lia].
 Qed.
 
 Lemma strings_Index_None : forall s sub, strings_Index s sub = None ->
   forall k, String.prefix sub (sdrop k s) = false.
 Proof.
-  induction s as [|c s IH]; intros sub; simpl.
-  - destruct sub; simpl; [discriminate|]. intros _ [|k]; reflexivity.
+  induction s as [|c s IH]; intros sub; cbn [strings_Index].
+  - destruct sub; cbn [String.prefix]; [discriminate|]. intros _ [|k]; reflexivity.
   - destruct (String.prefix sub (String c s)) eqn:P; [discriminate|].
-    destruct (strings_Index s sub) eqn:E; simpl; [discriminate|]. intros _ [|k]; simpl; [exact P|now apply IH].
+    destruct (strings_Index s sub) eqn:E; cbn [option_map]; [discriminate|]. intros _ [|k]; cbn [sdrop]; [exact P|now apply IH].
+Qed.
+
+Lemma stake_Index_length : forall s sub m, strings_Index s sub = Some m -> String.length (stake m s) = m.
+Proof.
+  induction s as [|c s IH]; intros sub m; cbn [strings_Index].
+  - destruct sub; cbn [String.prefix]; [|discriminate]. now intros [= <-].
+  - destruct (String.prefix sub (String c s)); [now intros [= <-]|].
+    destruct (strings_Index s sub) eqn:E; cbn [option_map]; [|discriminate]. intros [= <-].
+    cbn [stake String.length]. f_equal. eapply IH; eauto.
 Qed.
 
 Lemma strings_Index_bound : forall s sub m, strings_Index s sub = Some m -> m + String.length sub <= String.length s.
 Proof.
   intros s sub m H. destruct (strings_Index_Some _ _ _ H) as (E & _).
-  assert (L : String.length (stake m s) = m).
-  { clear E. revert m H. induction s as [|c s IH]; intros m; simpl.
-    - destruct sub; simpl; [|discriminate]. now intros [= <-].
-    - destruct (String.prefix sub (String c s)); [now intros [= <-]|].
-      destruct (strings_Index s sub) eqn:E; simpl; [|discriminate]. intros [= <-]. simpl. f_equal. now apply IH. }
+  pose proof (stake_Index_length _ _ _ H) as L.
   apply (f_equal String.length) in E. rewrite !slength_app, L in E. lia.
 Qed.
 
@@ -217,27 +223,28 @@ Proof.
   - apply orb_false_iff in H as (H1 & H2). rewrite H1, (IH _ H2). reflexivity.
 Qed.
 
+Lemma split_char_one : forall c s b, split_char c s = [b] -> s = b /\ has_char c b = false.
+Proof.
+  intros c. induction s as [|d r IH]; cbn [split_char]; intros b H.
+  - injection H as <-. auto.
+  - destruct (Ascii.eqb d c) eqn:E.
+    + exfalso. injection H as _ H. exact (split_char_nonempty _ _ H).
+    + destruct (split_char c r) as [|h t] eqn:Es; [exfalso; exact (split_char_nonempty _ _ Es)|].
+      injection H as <- ->. destruct (IH _ eq_refl) as (-> & Hh). cbn [has_char]. now rewrite E, Hh.
+Qed.
+
 (* exactly two pieces <-> exactly one separator *)
 Lemma split_char_two : forall c s a b,
   split_char c s = [a; b] <->
   s = (a ++ String c b)%string /\ has_char c a = false /\ has_char c b = false.
 Proof.
   intros c s a b; split.
-  - revert a b. induction s as [|d r IH]; simpl; intros a b H; [discriminate|].
+  - revert a b. induction s as [|d r IH]; cbn [split_char]; intros a b H; [discriminate|].
     destruct (Ascii.eqb d c) eqn:E.
     + injection H as <- H. apply Ascii.eqb_eq in E; subst d.
-      pose proof (split_char_no_sep c r) as F. rewrite H in F. inversion F; subst.
-      destruct r as [|d' r'].
-      * simpl in H. injection H as <-. auto.
-      * assert (has_char c (String d' r') = false -> split_char c (String d' r') = [String d' r']) by apply split_char_none.
-        (* the single piece b is r itself *)
-        assert (Hb : String d' r' = b).
-        { clear - H. revert b H. generalize (String d' r') as s. induction s as [|e s IHs]; simpl; intros b H; [now injection H|].
-          destruct (Ascii.eqb e c); [discriminate|]. destruct (split_char c s) as [|h t] eqn:Es; [now injection H|].
-          injection H as <- ->. f_equal. now apply IHs. }
-        rewrite Hb. auto.
+      destruct (split_char_one _ _ _ H) as (-> & Hb). auto.
     + destruct (split_char c r) as [|h t] eqn:Es; [discriminate|]. injection H as <- ->.
-      destruct (IH _ _ eq_refl) as (-> & H1 & H2). simpl. rewrite E. auto.
+      destruct (IH _ _ eq_refl) as (-> & H1 & H2). cbn [has_char String.append]. rewrite E, H1. auto.
   - intros (-> & Ha & Hb). rewrite split_char_app, split_char_none; auto.
 Qed.
 
